@@ -26,16 +26,16 @@ type TxnSpec struct {
 }
 
 type History struct {
-	KB      int            `json:"kb"`
-	Tables  []dbh.TableDef `json:"tables"`
-	Setup   []dbh.Stmt     `json:"setup"` // committed one by one before the history starts
-	Txns    []TxnSpec      `json:"txns"`
-	Tear    bool           `json:"tear"`             // also explore torn final writes
-	NoTornPage bool        `json:"no_torn_page,omitempty"` // torn page writes excluded (known finding: pages have no checksum / double write)
-	OnlyK   int            `json:"only_k,omitempty"` // replay: explore just this crash point (event index, 0 = all)
-	OnlyT   crashsim.Tear  `json:"only_tear,omitempty"`
-	Growth  bool           `json:"growth"` // post-recovery growth phase
-	MaxCrashPoints int     `json:"max_points"`
+	KB             int            `json:"kb"`
+	Tables         []dbh.TableDef `json:"tables"`
+	Setup          []dbh.Stmt     `json:"setup"` // committed one by one before the history starts
+	Txns           []TxnSpec      `json:"txns"`
+	Tear           bool           `json:"tear"`                   // also explore torn final writes
+	NoTornPage     bool           `json:"no_torn_page,omitempty"` // torn page writes excluded (known finding: pages have no checksum / double write)
+	OnlyK          int            `json:"only_k,omitempty"`       // replay: explore just this crash point (event index, 0 = all)
+	OnlyT          crashsim.Tear  `json:"only_tear,omitempty"`
+	Growth         bool           `json:"growth"` // post-recovery growth phase
+	MaxCrashPoints int            `json:"max_points"`
 }
 
 type Stats struct {
